@@ -222,6 +222,15 @@ impl RtpHeader {
                 break;
             }
 
+            if offset + len > ext.data.len() {
+                // A received element claims more bytes than the block holds: refuse to
+                // rewrite the block and leave the header as it was.
+                self.extension = Some(ext);
+                return Err(RtpError::InvalidHeader(
+                    "malformed one-byte header extension element",
+                ));
+            }
+
             if ext_id == id {
                 found = true;
                 new_data.push(id_header);
